@@ -143,33 +143,8 @@ theorem cex_tags_value_brace :
     ∧ (parseLql dp0 (txt "select from {a=\"}\"}")).map classUnsafeTags = some true := by
   decide +kernel
 
-/-- F12c: `Truncate.makeString` does not look at `MaxDbSize` at all — for every statement -/
-theorem cex_maxdbsize_dropped (rd : Int → Bytes) (t : Truncate) (n : Nat) :
-    printTruncate rd { t with maxDbSize := some n } = printTruncate rd { t with maxDbSize := none } := rfl
-
-/-- … so `TRUNCATE MAXDBSIZE 5G` re-parses without the bound -/
-theorem cex_maxdbsize_witness :
-    (parseLql dp0 (txt "TRUNCATE MAXDBSIZE 5G")).map (printLql rd0) = some (txt "TRUNCATE")
-    ∧ (parseLql dp0 (txt "TRUNCATE MAXDBSIZE 5G")).map (fun l => l.truncate.map (·.maxDbSize)) = some (some (some 5000000000))
-    ∧ (parseLql dp0 (txt "TRUNCATE")).map (fun l => l.truncate.map (·.maxDbSize)) = some (some none) := by
-  decide +kernel
-
-/-- the two observations of the real date functions the F12d witness rests on (replayed against the code on every
-run: corpus/C12/f12d-range-fraction.json): `time.Unix(0, 1546432495120000000).String()` is
-`2019-01-02 12:34:55.12 +0000 UTC`, and `parseLqlDateTime` reads that text as 12:34:55 sharp -/
-def dpW : Bytes → Option Int := fun lit =>
-  if lit == txt "1546432495120000000" then some 1546432495120000000
-  else if lit == txt "2019-01-02 12:34:55.12 +0000 UTC" then some 1546432495000000000 else none
-def rdW : Int → Bytes := fun _ => txt "2019-01-02 12:34:55.12 +0000 UTC"
-
-/-- F12d: with those observations, `SELECT RANGE "1546432495120000000"` comes back 120 ms earlier -/
-theorem cex_date_fraction :
-    (parseLql dpW (txt "SELECT RANGE \"1546432495120000000\"")).map (printLql rdW)
-      = some (txt "SELECT RANGE \"2019-01-02 12:34:55.12 +0000 UTC\"")
-    ∧ (parseLql dpW (txt "SELECT RANGE \"1546432495120000000\"")).map printedDates = some [1546432495120000000]
-    ∧ (parseLql dpW (txt "SELECT RANGE \"2019-01-02 12:34:55.12 +0000 UTC\"")).map printedDates = some [1546432495000000000]
-    ∧ (parseLql dpW (txt "SELECT RANGE \"1546432495120000000\"")).map classDateFraction = some true := by
-  decide +kernel
+/-! (F12c, F12d, F12f were repaired in /repo — 846d74c, 166caa8, 0c67e9a; their counterexamples are replaced by the
+positive theorems of the section "TRUNCATE" below.) -/
 
 /-- F12e: bare `SELECT` is accepted with every field nil and prints the empty text, which is rejected -/
 theorem cex_bare_select :
@@ -177,14 +152,6 @@ theorem cex_bare_select :
     ∧ (parseLql dp0 []).isNone = true
     ∧ (parseLql dp0 (txt "SELECT")).map classBareKeyword = some true
     ∧ (parseLql dp0 (txt "SELECT")).map printedDates = some [] := by
-  decide +kernel
-
-/-- F12f: `MINSIZE 2^63` prints as a negative number, which `humanize.ParseBytes` rejects -/
-theorem cex_huge_size_negative :
-    (parseLql dp0 (txt "TRUNCATE MINSIZE 9223372036854775808")).map (printLql rd0)
-      = some (txt "TRUNCATE MINSIZE -9223372036854775808")
-    ∧ (parseLql dp0 (txt "TRUNCATE MINSIZE -9223372036854775808")).isNone = true
-    ∧ (parseLql dp0 (txt "TRUNCATE MINSIZE 9223372036854775808")).map classHugeSize = some true := by
   decide +kernel
 
 /-- F12g: `SELECT RANGE [` is accepted (both bounds nil) and prints `SELECT RANGE `, which is rejected -/
@@ -225,5 +192,81 @@ example : wfSource (.tags [([97], [98]), ([99], txt "x,y")]) = true ∧ LexableS
   unfold LexableSource; decide +kernel
 /-- the F12b witness is excluded by `wfSource`, the F12a shape by `Lexable` -/
 example : wfSource (.tags [([97], [125])]) = false := by decide +kernel
+
+/-! ## TRUNCATE — the repaired printer (0c67e9a, 166caa8, 846d74c): positive theorems replacing the retired
+counterexamples of F12c / F12d / F12f -/
+
+/-- the printer shapes these theorems are about are the ones /repo has **now** (regenerated facts): sizes unsigned,
+MAXDBSIZE printed, BEFORE quoted once, instants through `Format` with the fixed nine-digit layout -/
+theorem truncate_printer_shapes :
+    Logrange.Generated.C12.truncateSizesUnsigned = true ∧ Logrange.Generated.C12.truncateDbSizeUnsigned = true
+    ∧ Logrange.Generated.C12.truncatePrintsMaxDbSize = true
+    ∧ Logrange.Generated.C12.beforeQuotedOnce = true ∧ Logrange.Generated.C12.dateUsesFormat = true
+    ∧ Logrange.Generated.C12.dateLayout = txt "2006-01-02 15:04:05.000000000 -0700 MST" := by
+  decide +kernel
+
+/-- with those shapes every clause is printed, each size as its unsigned decimal text (no `int64` wrap-around for
+sizes ≥ 2^63) and the instant quoted once -/
+theorem truncate_prints_every_clause (rd : Int → Bytes) (t : Truncate) :
+    printTruncate rd t = bs "TRUNCATE" ++ (if t.dryRun then bs " DRYRUN" else []) ++ printOptSource t.source
+      ++ (sizeClause true "MINSIZE" t.minSize ++ sizeClause true "MAXSIZE" t.maxSize
+          ++ (match t.before with | none => [] | some v => bs " BEFORE " ++ GoLib.quote (rd v))
+          ++ sizeClause true "MAXDBSIZE" t.maxDbSize) := by
+  obtain ⟨h1, h1', h2, h3, _, _⟩ := truncate_printer_shapes
+  unfold printTruncate truncateTail truncateTailWith
+  rw [h1, h1', h2, h3]
+  cases t.before <;> simp [beforeClause, printDate]
+
+/-- **TRUNCATE round trip at token level**, all clauses (DRYRUN, source, MINSIZE, MAXSIZE, BEFORE, MAXDBSIZE), every
+size with `sizeOK` (decidable: its decimal text is read back to it — see the examples at 2^63 and at the largest
+float64 below 2^64), any source in the parser's image at any depth, **given the date contract** for the BEFORE instant
+(`dp (rd v) = some v`: the date parser reads the printed text of the instant back to the instant — C20's side of the
+boundary; the harness exercises it on every run, section `datecontract`). -/
+theorem token_roundtrip_truncate (dp : Bytes → Option Int) (rd : Int → Bytes) (t : Truncate) (f : Nat)
+    (hf : (match t.source with | some (.expr e) => szExpr e | _ => 0) ≤ f)
+    (hw : wfTruncate rd t = true) (hd : DateContract dp rd t) :
+    directTruncateFuel dp f (toksTruncate rd t) = some t :=
+  dTruncate_toks dp rd t f hf hw hd
+
+def LexableTruncate (rd : Int → Bytes) (t : Truncate) : Prop := lex (printTruncate rd t) = some (toksTruncate rd t)
+instance (rd : Int → Bytes) (t : Truncate) : Decidable (LexableTruncate rd t) := by unfold LexableTruncate; exact inferInstance
+
+/-- **print then parse gives the same TRUNCATE statement back** — same partitions selected, same sizes incl. MAXDBSIZE,
+same BEFORE instant, same DRYRUN — under `Lexable` and the date contract -/
+theorem print_parse_truncate_partial (dp : Bytes → Option Int) (rd : Int → Bytes) (t : Truncate) (f : Nat)
+    (hf : (match t.source with | some (.expr e) => szExpr e | _ => 0) ≤ f)
+    (hw : wfTruncate rd t = true) (hd : DateContract dp rd t) (hl : LexableTruncate rd t) :
+    (lex (printTruncate rd t)).bind (directTruncateFuel dp f) = some t := by
+  rw [hl]; exact token_roundtrip_truncate dp rd t f hf hw hd
+
+/-- the date part in isolation: whatever instant the statement carries, what comes back through the BEFORE clause is
+that instant, exactly when the date functions satisfy the contract on it -/
+theorem before_instant_preserved (dp : Bytes → Option Int) (rd : Int → Bytes) (v : Int) (rest : List Tok)
+    (h : dp (rd v) = some v) :
+    dDateClause dp kwBEFORE (beforeToks rd (some v) ++ rest) = some (some v, rest) :=
+  dDateClause_toks dp rd (some v) rest (by intro w hw; cases hw; exact h) (by intro hn; cases hn)
+
+/-- sizes the old printer wrapped around are fine now: 2^63, the largest float64 below 2^64, 10000P -/
+example : sizeOK (2^63) = true ∧ sizeOK 18446744073709549568 = true ∧ sizeOK 10000000000000000000 = true
+    ∧ sizeOK 0 = true ∧ sizeOK 5000000000 = true := by decide +kernel
+/-- … and a uint64 that is not a float64 value is not in the parser's image (`ParseBytes` rounds it) -/
+example : sizeOK (2^53 + 1) = false := by decide +kernel
+
+def rdEx : Int → Bytes := fun _ => txt "2019-01-02 12:34:55.500000000 +0000 UTC"
+def dpEx : Bytes → Option Int := fun b => if b == txt "2019-01-02 12:34:55.500000000 +0000 UTC" then some 1546432495500000000 else none
+/-- `TRUNCATE DRYRUN a = "1" … MINSIZE 2^63 MAXSIZE 18446744073709549568 BEFORE "…55.5…" MAXDBSIZE 5000000000` -/
+def exT : Truncate :=
+  { dryRun := true, source := some (.expr exE), minSize := some (2^63), maxSize := some 18446744073709549568,
+    before := some 1546432495500000000, maxDbSize := some 5000000000 }
+
+example : wfTruncate rdEx exT = true ∧ LexableTruncate rdEx exT ∧ dpEx (rdEx 1546432495500000000) = some 1546432495500000000 := by
+  unfold LexableTruncate; decide +kernel
+/-- the old F12c/F12d/F12f witnesses, through the whole model (lexer + engine on the regenerated grammar + printer) -/
+example :
+    (parseLql dpEx (txt "TRUNCATE MAXDBSIZE 5G")).map (printLql rdEx) = some (txt "TRUNCATE MAXDBSIZE 5000000000")
+    ∧ (parseLql dpEx (txt "TRUNCATE MINSIZE 9223372036854775808")).map (printLql rdEx) = some (txt "TRUNCATE MINSIZE 9223372036854775808")
+    ∧ ((parseLql dpEx (txt "TRUNCATE MINSIZE 9223372036854775808")).bind (fun l => parseLql dpEx (printLql rdEx l))).map
+        (fun l => l.truncate.map (·.minSize)) = some (some (some (2^63))) := by
+  decide +kernel
 
 end Logrange.Props.C12
